@@ -11,12 +11,13 @@ import (
 )
 
 var (
-	fIn     = flag.String("verif.in", "", "scenario file (ND-JSON, one scenario per line)")
-	fOut    = flag.String("verif.out", "", "trace file (ND-JSON)")
-	fEvents = flag.String("verif.events", "", "comma separated list of event types to record (empty = all)")
-	fMode   = flag.String("verif.mode", "scenarios", "driver mode")
-	fWork   = flag.String("verif.work", "", "directory for scenario working directories (default: the system temp dir)")
-	fChild  = flag.String("verif.child", "", "child specification (crash-point enumeration)")
+	fIn      = flag.String("verif.in", "", "scenario file (ND-JSON, one scenario per line)")
+	fOut     = flag.String("verif.out", "", "trace file (ND-JSON)")
+	fEvents  = flag.String("verif.events", "", "comma separated list of event types to record (empty = all)")
+	fMode    = flag.String("verif.mode", "scenarios", "driver mode")
+	fWork    = flag.String("verif.work", "", "directory for scenario working directories (default: the system temp dir)")
+	fInplace = flag.Bool("verif.inplace", false, "run scenarios in the current directory (spliced-in run of another process)")
+	fChild   = flag.String("verif.child", "", "child specification (crash-point enumeration)")
 )
 
 func TestVerif(t *testing.T) {
